@@ -89,7 +89,13 @@ fn main() {
   util::install_panic_hook();
   let mut rep = Report::new();
   let t0 = std::time::Instant::now();
-  let known = mon::run(&mon, &ctx, &mut rep);
+  let known = match util::guarded(|| mon::run(&mon, &ctx, &mut rep)) {
+    Ok(k) => k,
+    Err(p) => {
+      eprintln!("vmon {mon}: uncaught panic at {}: {}", p.location, p.message);
+      std::process::exit(3);
+    }
+  };
   if !known {
     eprintln!("unknown monitor {mon}");
     std::process::exit(2);
